@@ -4,7 +4,7 @@ Forms with 1-8 integrals (ids int / tuple / everywhere, 1-3 integral types, 1-2 
 distinct-but-similar values) go through group_form_integrals (both append options) and build_integral_data.  A model
 computed from the *input form's* integrals by the rule of the statement,
 
-   (mesh, type, subdomain s, metadata class M)  ->  sum of the integrands of the input integrals that apply to s and
+   (mesh, type, subdomain s, metadata class M, stack of unapplied coordinate derivatives)  ->  sum of the integrands of the input integrals that apply to s and
    carry metadata M  (+ the 'everywhere' integrals with metadata M when they are appended; 'otherwise' = the
    'everywhere' integrals),
 
@@ -31,19 +31,23 @@ RULE = (
     "everywhere / small ints / tuples of distinct ints, metadata drawn from a pool that contains equal, distinct and "
     "distinct-but-similar values (floats differing in the 13th digit, nested dicts/lists, numpy arrays of 3..3000 entries "
     "differing in one middle or last entry or in the 9th digit), integrands from the grammar (some repeated so that "
-    "integrals with a common integrand are merged into id tuples); both values of do_append_everywhere_integrals. "
+    "integrals with a common integrand are merged into id tuples), in a third of the cases wrapped in 0-2 unapplied "
+    "shape derivatives (CoordinateDerivative) in directions V1/V2/V3; both values of do_append_everywhere_integrals. "
     "non-trivial = at least two input integrals apply to one (mesh, type, subdomain) and at least two different metadata "
     "values occur; distinct = distinct (form, option)."
 )
 ASSUMPTIONS = ["metadata classes by exact comparison; the form's own integrals (after construction) define the input",
-               "coordinate derivatives are not generated"]
+               "unapplied shape derivatives are compared as (inner integrand value, multiset of derivative operands): the order of a "
+               "stack of Gateaux derivatives is not significant"]
 BUDGET = {"quick": {"examples": 2000, "seconds": 70}, "thorough": {"examples": 60000, "seconds": 1500}}
-LABEL_FLOORS = {"quick": {"similar-metadata": 400, "two-meshes": 300, "everywhere+numbered": 500}}
+LABEL_FLOORS = {"quick": {"two-derivative-stacks-on-one-subdomain": 60, "similar-metadata": 400, "two-meshes": 300, "everywhere+numbered": 500}}
 CASE_TIMEOUT = {"quick": 20, "thorough": 60}
 
 OPS = {"arith", "math", "index", "tensor", "compound", "deriv", "pow", "abs", "var"}
 PROF = Profile(ops=OPS, leaves={"coef", "const", "lit", "x", "geo", "eye"}, max_rank=2, elements="lagrange", manifolds=True,
                args=((0, "any"),))
+# stacks of unapplied shape derivatives (directions by name; equal names are the same coefficient)
+CDS = [[], [], [], ["V1"], ["V1"], ["V2"], ["V1", "V2"], ["V2", "V1"], ["V1", "V1"], ["V3"]]
 SIDS = [None, None, None, 0, 1, 2, 3, [1, 2], [0, 3], [2, 1, 5], [3, 0]]
 
 
@@ -80,10 +84,11 @@ def cases(draw, tier):
     pool = md_pool(draw)
     exprs = [L.term(argnames, draw(st.integers(1, 2))) for _ in range(draw(st.integers(1, 4)))]
     integrals = []
+    shape_derivs = draw(st.integers(0, 2)) == 0
     for _ in range(draw(st.integers(1, 8))):
         integrals.append({"itype": draw(st.sampled_from(["dx", "dx", "dx", "ds"])), "sid": draw(st.sampled_from(SIDS)),
                           "md": draw(st.sampled_from(pool)), "mesh": draw(st.integers(0, nmesh - 1)),
-                          "expr": draw(st.sampled_from(exprs))})
+                          "expr": draw(st.sampled_from(exprs)), "cd": draw(st.sampled_from(CDS)) if shape_derivs else []})
     return {"world": world, "vars": G.vars, "integrals": integrals, "append": draw(st.booleans()),
             "similar": any("__array__" in str(m) or "tol" in m for m in pool), "env_seed": draw(st.integers(0, 10**6))}
 
@@ -108,6 +113,18 @@ def md_class(md, classes):
             return k
     classes.append(md)
     return len(classes) - 1
+
+
+def strip_cd(integrand):
+    """(integrand without its outer CoordinateDerivative nodes, the multiset of their (coordinate, direction, extra)
+    operands).  Gateaux derivatives commute, so the order of the stack is not part of the key."""
+    from ufl.classes import CoordinateDerivative
+
+    stack = []
+    while isinstance(integrand, CoordinateDerivative):
+        stack.append(tuple(repr(o) for o in integrand.ufl_operands[1:]))
+        integrand = integrand.ufl_operands[0]
+    return integrand, tuple(sorted(stack))
 
 
 def ids_of(itg):
@@ -141,7 +158,7 @@ def check_case(case):
     inputs = list(form.integrals())
     outputs = list(out.integrals())
     classes = []
-    order = max([derivative_depth(i.integrand()) for i in inputs + outputs] + [0])
+    order = max([derivative_depth(strip_cd(i.integrand())[0]) for i in inputs + outputs] + [0])
     if order > 3:
         raise Discard("derivative order > 3")
     # ---- structural checks
@@ -165,6 +182,7 @@ def check_case(case):
         raise Violation("build_integral_data does not list every grouped integral exactly once", {"kind": "integral-data-cover"})
     # ---- values
     two_apply = False
+    two_stacks = False
     for rep in range(2):
         vals_in = {}
         vals_out = {}
@@ -173,7 +191,7 @@ def check_case(case):
             k = id(itg)
             if k not in cache:
                 env = make_env(case, rep, facet=(itg.integral_type() == "exterior_facet"))
-                cache[k] = Guard(Interp(env, order=order)).value(itg.integrand())
+                cache[k] = Guard(Interp(env, order=order)).value(strip_cd(itg.integrand())[0])
             return cache[k]
 
         keys = set()
@@ -199,11 +217,13 @@ def check_case(case):
                 two_apply = True
             exp, got = {}, {}
             for i in src:
-                c = md_class(i.metadata(), classes)
+                c = (md_class(i.metadata(), classes), strip_cd(i.integrand())[1])
                 exp[c] = exp.get(c, 0.0) + value(i, vals_in)
             for o in outs:
-                c = md_class(o.metadata(), classes)
+                c = (md_class(o.metadata(), classes), strip_cd(o.integrand())[1])
                 got[c] = got.get(c, 0.0) + value(o, vals_out)
+            if len({c[1] for c in exp if c[1]}) >= 2:
+                two_stacks = True
             for c in set(exp) | set(got):
                 a, g_ = exp.get(c, 0.0), got.get(c, 0.0)
                 if not close(np.asarray(a), np.asarray(g_), rtol=1e-7, atol=1e-9):
@@ -216,4 +236,6 @@ def check_case(case):
         labels.append("two-meshes")
     if any(i.subdomain_id() == "everywhere" for i in inputs) and any(i.subdomain_id() != "everywhere" for i in inputs):
         labels.append("everywhere+numbered")
-    return {"nontrivial": two_apply and len(classes) >= 2, "labels": labels}
+    if two_stacks:
+        labels.append("two-derivative-stacks-on-one-subdomain")
+    return {"nontrivial": two_apply and (len(classes) >= 2 or two_stacks), "labels": labels}
